@@ -57,6 +57,71 @@ def prep_values(sc):
     prep_heap_ctor(sc)
 
 
+def prep_vecmap(sc):
+    """T5 dependency substitution: redirect `std::collections::HashMap` to verif_common::VecMap under cfg(kani) in the
+    four files through which Environment / CapturedScope / call-time bindings flow. Only `use` lines change."""
+    prep_common(sc)
+    if getattr(sc, "_vecmap", False):
+        return
+    pair = "#[cfg(not(kani))]\nuse std::collections::HashMap;\n#[cfg(kani)]\nuse crate::verif_common::VecMap as HashMap;"
+    edits = [
+        ("environment.rs", "use std::collections::HashMap;", pair),
+        ("functions.rs", "use std::{cell::RefCell, collections::HashMap, rc::Rc, sync::LazyLock};",
+         "use std::{cell::RefCell, rc::Rc, sync::LazyLock};\n" + pair),
+        ("values.rs", "use std::{cell::RefCell, collections::HashMap, fmt::Display, rc::Rc};",
+         "use std::{cell::RefCell, fmt::Display, rc::Rc};\n" + pair),
+        ("expressions.rs", "    collections::{HashMap, HashSet},", "    collections::HashSet,"),
+    ]
+    for rel, old, new in edits:
+        src = sc.read(rel)
+        if src.count(old) != 1:
+            raise core.Undecided("T5-vecmap", "lost-anchor", f"{rel}: {old!r}")
+        src = src.replace(old, new)
+        if rel == "expressions.rs":
+            # the cfg pair goes after the closing `};` of the `use std::{` group
+            anchor = "use std::{\n    cell::RefCell,"
+            if src.count(anchor) != 1:
+                raise core.Undecided("T5-vecmap", "lost-anchor", f"{rel}: {anchor!r}")
+            src = src.replace(anchor, pair + "\n" + anchor)
+        sc.write(rel, src)
+    sc.injected.append({"rule": "T5 dependency substitution", "files": [e[0] for e in edits],
+                        "note": "std::collections::HashMap -> crate::verif_common::VecMap (association list) under cfg(kani); "
+                                "only `use` lines are edited"})
+    sc._vecmap = True
+
+
+VECMAP_ASSUMPTION = ("T5: std::collections::HashMap is replaced under cfg(kani) by an association-list map with the same "
+                     "interface (finite-map contract of the dependency is assumed; iteration order = insertion order)")
+
+
+def prep_bind_loop(sc):
+    """T3: slice the parameter-binding loop of FunctionDef::call verbatim into a method of FunctionDef."""
+    prep_call(sc)
+    if getattr(sc, "_bindloop", False):
+        return
+    from . import slicing
+    src = sc.read("functions.rs")
+    blk, a0, a1 = slicing.slice_block_after(src, "for (idx, expected_arg) in expected_args.iter().enumerate() {",
+                                            "U-BIND-LOOP", "functions.rs")
+    text = ("    #[cfg(kani)]\n    #[allow(unused_variables, clippy::all)]\n"
+            "    pub(crate) fn verif_bind_loop(&self, expected_args: &Vec<LambdaArg>, args: &Vec<Value>, "
+            "heap: &Rc<RefCell<Heap>>, local_bindings: &mut HashMap<String, Value>) -> Result<(), RuntimeError> {\n"
+            "        for (idx, expected_arg) in expected_args.iter().enumerate() " + blk + "\n        Ok(())\n    }\n")
+    sc.insert_in_impl("functions.rs", "FunctionDef", text,
+                      {"bind_loop": {"lines": [core.line_of(src, a0), core.line_of(src, a1)], "sha256": core.sha256(blk)},
+                       "dropped": "everything of FunctionDef::call around the loop (arity check, depth guard, self/inputs "
+                                  "bindings, environment construction, body evaluation, profiling record)"},
+                      unit="U-BIND-LOOP")
+    sc._bindloop = True
+
+
+def prep_call(sc):
+    prep_vecmap(sc)
+    prep_values(sc)
+    # the HashMap::insert no-op stub of U-BIND-SAFE has to name the allocator parameter of HashMap
+    sc.prepend_crate_attr("#![cfg_attr(kani, feature(allocator_api))]")
+
+
 FMT_BT = STUB_ASSUMPTIONS[:2]
 
 U_CMP_SCALAR = KaniUnit(
@@ -177,6 +242,9 @@ BINOP_STUBS = STUB_ASSUMPTIONS[:4] + [
     "operands range over numbers (all f64 incl. NaN/inf), booleans, null and built-in functions; strings, lists, records "
     "and lambdas need heap cells and are NOT covered (string concatenation by + is not decided)",
     "f64::powf is a primitive: ^ is only proved to return a number for two numbers",
+    "* / % are proved only for NaN propagation, fixed witnesses pinning operation and operand order, and failure on "
+    "non-numbers - NOT bit-exactly for all operands: every query that makes the solver reason about the multiplier / "
+    "divider / fmod circuits (bit-exact second copy, sign rule, neutral elements) exceeded 20 min; CBMC's SMT back end crashes here",
 ]
 
 U_BINOP_SCALAR = KaniUnit(
@@ -248,31 +316,26 @@ U_DEPTH = KaniUnit(
     "otherwise the callee runs exactly once with call_depth + 1 (all built-ins, all usize depths)",
     modules=[("functions.rs", "verif_call.rs")], harnesses=["u_depth_builtin"],
     functions=[("functions.rs", "call", "FunctionDef"), ("functions.rs", "check_arity", "FunctionDef")],
-    prepare=prep_values, timeout=1200, assumptions=CALL_STUBS)
+    prepare=prep_call, timeout=1200, assumptions=CALL_STUBS)
 
 U_ARITY_LAMBDA = KaniUnit(
     "U-ARITY-LAMBDA", "LambdaDef::get_arity / check_arity for every parameter list of the documented shape (required*, "
     "optional*, at most one trailing rest; <= 3 parameters): Exact / Between / AtLeast, and any other count is an error",
     modules=[("functions.rs", "verif_call.rs")], harnesses=["u_arity_lambda"],
     functions=[("values.rs", "get_arity", "LambdaDef"), ("functions.rs", "check_arity", "FunctionDef")],
-    prepare=prep_values, timeout=1200, complete=False, bound="parameter lists of length <= 3",
+    prepare=prep_call, timeout=1200, complete=False, bound="parameter lists of length <= 3",
     assumptions=CALL_STUBS[:2] + CALL_STUBS[3:4])
 
-U_BIND_SAFE = KaniUnit(
-    "U-BIND-SAFE", "FunctionDef::call on lambdas with ANY order of parameter kinds (<= 3 parameters) and 0..4 arguments: "
-    "no panic (no out-of-range index), rejected counts and depth > 1000 fail before the body, body gets depth + 1",
-    modules=[("functions.rs", "verif_call.rs")], harnesses=["u_bind_safe"],
+U_BIND_LOOP = KaniUnit(
+    "U-BIND-LOOP", "parameter-binding loop of FunctionDef::call (sliced verbatim): for parameter lists in ANY order of "
+    "kinds (<= 2 parameters) and every accepted argument count (<= 4): no panic; required -> argument at its position, "
+    "optional -> argument or null, rest -> fresh list of the remaining arguments in order; a required parameter left "
+    "without an argument is an error (never for the documented shapes); exactly the parameters are bound",
+    modules=[("functions.rs", "verif_call.rs")], harnesses=["u_bind_loop"],
     functions=[("functions.rs", "call", "FunctionDef")],
-    prepare=prep_values, timeout=1500, complete=False, bound="<= 3 parameters, <= 4 arguments", assumptions=CALL_STUBS)
-
-U_BIND = KaniUnit(
-    "U-BIND", "FunctionDef::call, documented parameter shapes (<= 3 parameters, <= 4 arguments): required/optional/rest "
-    "bind positionally; parameters shadow self name, inputs, captured scope and caller; captured scope shadows caller; "
-    "nothing leaks into or changes the caller environment; result and failure propagate",
-    modules=[("functions.rs", "verif_call.rs")], harnesses=["u_bind_positional", "u_bind_scope_chain", "u_bind_param_wins"],
-    functions=[("functions.rs", "call", "FunctionDef"), ("environment.rs", "get", "Environment")],
-    prepare=prep_values, timeout=1800, complete=False, bound="<= 2 parameters, <= 3 arguments for positional binding; fixed names for the scope-chain scenarios",
-    assumptions=CALL_STUBS)
+    prepare=prep_bind_loop, timeout=1500, complete=False, bound="<= 2 parameters, <= 4 arguments",
+    assumptions=[STUB_ASSUMPTIONS[0], CALL_STUBS[3], VECMAP_ASSUMPTION],
+    dropped=["T3: the rest of FunctionDef::call around the binding loop"])
 
 U_CONVERT = KaniUnit(
     "U-CONVERT", "Unit::convert_to_base / convert_from_base are bit-exactly v*c, v/c, c/v (inf at 0) and the temperature "
@@ -296,6 +359,7 @@ U_JSON_SCALAR = KaniUnit(
 def prep_assign(sc):
     """T3: slice the Expr::Assignment arm of evaluate_ast verbatim."""
     prep_values(sc)
+    prep_vecmap(sc)
     if getattr(sc, "_assign", False):
         return
     from . import slicing
@@ -343,7 +407,7 @@ def audit_env_insert_sites():
     return obs
 
 
-ASSIGN_STUBS = [STUB_ASSUMPTIONS[0], STUB_ASSUMPTIONS[3],
+ASSIGN_STUBS = [STUB_ASSUMPTIONS[0], VECMAP_ASSUMPTION,
                 "Kani stub (probe) for expressions::evaluate_ast on the right-hand side: records scope identity / depth, "
                 "returns an arbitrary scalar or error (lambda values, which also set LambdaDef.name, are not covered)",
                 "names range over a fixed pool forcing every case of the statement (fresh, locally bound, bound in an "
@@ -353,7 +417,7 @@ U_ASSIGN = KaniUnit(
     "U-ASSIGN", "Expr::Assignment arm of evaluate_ast (sliced verbatim): keywords, built-in names, inputs, constants and "
     "visible names are refused without evaluating the right-hand side; otherwise the RHS is evaluated once, a failure "
     "binds nothing, success binds exactly that name locally; all other bindings and the outer scope are unchanged",
-    modules=[("expressions.rs", "verif_expr_assign.rs")], harnesses=["u_assign_toplevel"],
+    modules=[("expressions.rs", "verif_expr_assign.rs")], harnesses=["u_assign_toplevel_a", "u_assign_toplevel_b", "u_assign_toplevel_c"],
     functions=[("expressions.rs", "evaluate_ast", None), ("environment.rs", "insert", "Environment"),
                ("environment.rs", "contains_key", "Environment")],
     prepare=prep_assign, timeout=1800, complete=False, bound="name pool of 16 identifiers; scope chain of depth 2",
@@ -362,7 +426,7 @@ U_ASSIGN = KaniUnit(
 U_DOASSIGN = KaniUnit(
     "U-DOASSIGN", "evaluate_do_block_expr: keywords refused; otherwise evaluates once in the block scope; a block-local "
     "binding may shadow but never alters or leaks into the enclosing scope",
-    modules=[("expressions.rs", "verif_expr_assign.rs")], harnesses=["u_doassign"],
+    modules=[("expressions.rs", "verif_expr_assign.rs")], harnesses=["u_doassign_a", "u_doassign_b", "u_doassign_c"],
     functions=[("expressions.rs", "evaluate_do_block_expr", None)],
     prepare=prep_assign, timeout=1800, complete=False, bound="name pool of 12 identifiers; scope chain of depth 3",
     assumptions=ASSIGN_STUBS)
@@ -375,22 +439,23 @@ U_ENV = KaniUnit(
                ("environment.rs", "contains_key", "Environment"), ("environment.rs", "contains_key_local", "Environment"),
                ("environment.rs", "extend", "Environment")],
     prepare=prep_assign, timeout=1800, complete=False, bound="3 names, chain depth 2, arbitrary initial parent bindings",
-    assumptions=[STUB_ASSUMPTIONS[3]])
+    assumptions=[VECMAP_ASSUMPTION])
 
 U_ENV_AUDIT = AuditUnit(
     "U-ENV-AUDIT", "every Environment::insert call site in blots-core is in evaluate_ast's Assignment arm or "
     "evaluate_do_block_expr (both under contract)", audit_env_insert_sites)
 
 U_QUOTE = KaniUnit(
-    "U-QUOTE", "string_to_source / format_record_key / is_valid_identifier: the emitted text reads back by the grammar's "
-    "escape-free literal rule as the same string (literal, or parenthesised concatenation / computed key when both quote "
-    "kinds occur); bare keys only for grammar identifiers that are not reserved words",
-    modules=[("ast_to_source.rs", "verif_quote.rs")], harnesses=["u_quote_string", "u_quote_record_key", "u_quote_reserved"],
-    functions=[("ast_to_source.rs", "string_to_source", None), ("ast_to_source.rs", "quote_string_literal", None),
-               ("ast_to_source.rs", "format_record_key", None), ("ast_to_source.rs", "is_valid_identifier", None)],
-    prepare=prep_common, timeout=1800, complete=False,
-    bound="strings of <= 3 characters over {a, \", ', \\, _, 1, space}; real format!/String code (no stub)",
-    assumptions=["the literal reader in the harness transcribes grammar.pest's `string` rule (no escapes; ends at the opening quote)"])
+    "U-QUOTE", "is_valid_identifier returns true only for identifiers of the grammar (ASCII letter/underscore start, ASCII "
+    "alphanumeric/underscore rest, not a reserved word): a 24-string pool (incl. non-ASCII letters after an ASCII start, reserved "
+    "words and their prefixes) and the 12 reserved words; symbolic strings of <= 3 characters timed out at 10 min and were dropped",
+    modules=[("ast_to_source.rs", "verif_quote.rs")],
+    harnesses=["u_quote_identifier_pool", "u_quote_reserved"],
+    functions=[("ast_to_source.rs", "is_valid_identifier", None)],
+    prepare=prep_common, timeout=900, complete=False,
+    bound="pool of 24 constant strings + 12 reserved words",
+    assumptions=["string_to_source / quote_string_literal / format_record_key's quoted and concatenated forms are read, not "
+                 "proved (real format! is intractable for CBMC: >10 min for one constant string; stubbed format! hides the text)"])
 
 BUILTIN_STUBS = STUB_ASSUMPTIONS[:4] + [
     "Kani stub FunctionDef::call -> assert(false): these built-in arms take no callback",
@@ -511,6 +576,108 @@ U_PRINT_CALLS = KaniUnit(
                  "pointer and side, return an arbitrary bool; that the returned decision is then turned into '(' ... ')' "
                  "around that operand's text is read, not proved (format! string assembly)"])
 
+def prep_print_calls(sc):
+    """T3: slice the operator arms of expr_to_source / expr_to_source_with_scope / format_single_line verbatim."""
+    prep_common(sc)
+    if getattr(sc, "_printcalls", False):
+        return
+    from . import slicing
+    src = sc.read("ast_to_source.rs")
+    notes = {}
+
+    def arms_of(fn_name, match_anchor, source, file):
+        it = core.find_fn(source, fn_name, file, unit="U-PRINT-CALLS")
+        m = core.find_code(source, match_anchor, it.body_open, it.end)
+        if m < 0:
+            raise core.Undecided("U-PRINT-CALLS", "lost-anchor", f"{file}: {match_anchor!r} in {fn_name}")
+        b = m + len(match_anchor) - 1
+        e = core.match_brace(source, b)
+        return slicing.top_level_arms(source[b:e + 1])
+
+    def pick(arms, prefix):
+        hits = [(p, b) for p, b in arms if p.replace("\n", " ").startswith(prefix)]
+        if len(hits) != 1:
+            raise core.Undecided("U-PRINT-CALLS", "lost-anchor", f"arm {prefix!r} found {len(hits)} times")
+        return hits[0][1]
+
+    sigs = {
+        "binop": ("Expr::BinaryOp { op, left, right }", "op: &BinaryOp, left: &Box<SpannedExpr>, right: &Box<SpannedExpr>"),
+        "unary": ("Expr::UnaryOp { op, expr }", "op: &UnaryOp, expr: &Box<SpannedExpr>"),
+        "postfix": ("Expr::PostfixOp { op, expr }", "op: &PostfixOp, expr: &Box<SpannedExpr>"),
+        "call": ("Expr::Call { func, args }", "func: &Box<SpannedExpr>, args: &Vec<SpannedExpr>"),
+        "access": ("Expr::Access { expr, index }", "expr: &Box<SpannedExpr>, index: &Box<SpannedExpr>"),
+        "dot": ("Expr::DotAccess { expr, field }", "expr: &Box<SpannedExpr>, field: &String"),
+    }
+    text = ["#[cfg(kani)]\npub(crate) type SerializableScope = IndexMap<String, SerializableValue>;\n"]
+    for fn_name, suffix, extra in (("expr_to_source", "", ""), ("expr_to_source_with_scope", "_scope", ", scope: &IndexMap<String, SerializableValue>")):
+        arms = arms_of(fn_name, "match &spanned_expr.node {", src, "ast_to_source.rs")
+        for key, (pat, params) in sigs.items():
+            body = pick(arms, pat)
+            notes[f"{fn_name}:{key}"] = core.sha256(body)
+            text.append("#[cfg(kani)]\n#[allow(unused_variables, clippy::all)]\n"
+                        f"pub(crate) fn verif_print_{key}{suffix}({params}{extra}) -> String {{\n    {body}\n}}\n")
+    sc.append_text("ast_to_source.rs", "\n".join(text), "T3 arm slicing",
+                   {"arms": notes, "dropped": "the `match &spanned_expr.node` dispatch and every other arm of the two printers"})
+    fsrc = sc.read("formatter.rs")
+    farms = arms_of("format_single_line", "match &expr.node {", fsrc, "formatter.rs")
+    body = pick(farms, "Expr::Call { func, args }")
+    sc.append_text("formatter.rs", "#[cfg(kani)]\n#[allow(unused_variables, clippy::all)]\n"
+                   "pub(crate) fn verif_print_single_line_call(func: &Box<SpannedExpr>, args: &Vec<SpannedExpr>) -> String {\n    "
+                   + body + "\n}\n", "T3 arm slicing",
+                   {"arms": {"format_single_line:call": core.sha256(body)}, "dropped": "the match dispatch of format_single_line"})
+    sc._printcalls = True
+
+
+U_PRINT_CALLS = KaniUnit(
+    "U-PRINT-CALLS", "every printing site (BinaryOp / UnaryOp / PostfixOp / Call / Access / DotAccess arms of expr_to_source and "
+    "expr_to_source_with_scope, format_binary_op_multiline on all its layout paths, the formatter's two call layouts) "
+    "queries the decision functions with the operand it prints and the side that operand is on",
+    modules=[("formatter.rs", "verif_print_calls.rs")],
+    harnesses=["u_print_calls_binary_arms", "u_print_calls_multiline", "u_print_calls_operand_arms", "u_print_calls_call_layouts"],
+    functions=[("ast_to_source.rs", "expr_to_source", None), ("ast_to_source.rs", "expr_to_source_with_scope", None),
+               ("formatter.rs", "format_binary_op_multiline", None), ("formatter.rs", "format_call_multiline", None),
+               ("formatter.rs", "format_single_line", None)],
+    prepare=prep_print_calls, timeout=900,
+    assumptions=[STUB_ASSUMPTIONS[0], "Kani stubs (probes) for needs_parens_in_binop / _prefix / _postfix (record operand pointer "
+                 "and side, return an arbitrary decision) and for the recursive printers (return an empty string); that the "
+                 "decision is then turned into '(' ... ')' around that operand's text is read, not proved (format! assembly)"],
+    dropped=["T3: match dispatch around the sliced arms"])
+
+LAMBDA_BODY_SITES = [
+    # (file, function, what it prints)
+    ("ast_to_source.rs", "expr_to_source", "Lambda arm: `(args) => body`"),
+    ("ast_to_source.rs", "expr_to_source_with_scope", "Lambda arm with inlined scope"),
+    ("formatter.rs", "format_single_line", "Lambda arm of the single-line layout"),
+    ("formatter.rs", "format_lambda", "multi-line lambda layout"),
+    ("values.rs", "from_value", "body text of a function output (__blots_function)"),
+    ("values.rs", "parse_function_source", "body text of a reloaded function input"),
+    ("values.rs", "stringify", "display form of a function value"),
+]
+
+
+def audit_lambda_body_sites():
+    """A lambda body ends at the first via / into / where outside parentheses (grammar: lambda_infix_usage), so every site
+    that prints an Expr as a lambda body has to consult a lambda-body parenthesisation decision. Token audit: the site's
+    function must mention one (`needs_parens_in_lambda_body` or `lambda_body_to_source*`)."""
+    import os
+    import re
+    obs = []
+    for file, fn, what in LAMBDA_BODY_SITES:
+        src = open(os.path.join(core.REPO, "blots-core", "src", file)).read()
+        try:
+            it = core.find_fn(src, fn, file, unit="U-LAMBDA-BODY")
+        except core.Undecided as e:
+            obs.append({"case": f"lambda-body-site:{file}:{fn}", "ok": False, "detail": "site function not found: " + str(e)})
+            continue
+        ok = bool(re.search(r"needs_parens_in_lambda_body|lambda_body_to_source", it.text))
+        obs.append({"case": f"lambda-body-site:{file}:{fn}", "ok": ok, "detail": what})
+    return obs
+
+
+U_LAMBDA_BODY = AuditUnit(
+    "U-LAMBDA-BODY", "every site that prints an expression as a lambda body consults a lambda-body parenthesisation decision "
+    "(a body containing an unparenthesised via / into / where re-parses as a different program)", audit_lambda_body_sites)
+
 U_PREC = KaniUnit(
     "U-PREC", "operator_info orders the 26 operators as the C10 table; ^ alone is right-associative; table rows "
     "pair each operator with its grammar rule",
@@ -573,12 +740,21 @@ PRINTER_ASSUMED = [
     "operand they print (read, not proved: the arms are format! string assembly)",
 ]
 
-prop("C07", [U_PARENS, U_PARENS_OPERAND, U_PREC, U_QUOTE, U_PRINT_CALLS], "other",
+prop("C07", [U_PARENS, U_PARENS_OPERAND, U_PREC, U_QUOTE, U_PRINT_CALLS, U_LAMBDA_BODY], "other",
      "Contract-based proof (Kani/CBMC, full finite or fully symbolic domains) that the printer's parenthesisation "
      "decision functions wrap every operand that re-parsing would regroup. Decides the 'same expression trees' part of "
      "C07 for operator/term structure; layout, quoting and number text are assumptions or other units.",
      ["line-break placement by formatter.rs is accepted by the grammar", "number literal text round-trip (C16)",
       "comment handling (C09)", "string_to_source / format_record_key text (format!/String code, bounded unit pending)"],
+     PRINTER_ASSUMED)
+
+prop("C05", [U_PARENS, U_PARENS_OPERAND, U_PREC, U_QUOTE, U_PRINT_CALLS, U_LAMBDA_BODY, U_JSON_SCALAR], "other",
+     "The emitted function source groups as the original tree: the printer's parenthesisation decision functions are proved "
+     "against the precedence table of C10 and the grammar's open-ended terms (same units as C07, including the with-scope "
+     "printer's call sites), bare record keys only for grammar identifiers, captured scalar values map through JSON and the "
+     "heap unchanged. Behavioural equivalence after reload (capture analysis, scope inlining, parsing) is NOT decided.",
+     ["collect_free_variables / validate_portable_value", "text of quoted strings and numbers (format!; C16)",
+      "that the reloaded text parses to the same tree (pest)", "negative / non-finite captured numbers in postfix position"],
      PRINTER_ASSUMED)
 
 prop("C10", [U_PREC], "other",
@@ -589,7 +765,7 @@ prop("C10", [U_PREC], "other",
       "that build_pratt_parser registers the table in this order (U-PRATT-REG pending)"],
      ["pest PrattParser semantics"])
 
-prop("C01", [U_ARITY, U_HEAP, U_BIND_SAFE, U_GUARD, U_GUARD_FACTORIAL], "other",
+prop("C01", [U_ARITY, U_HEAP, U_GUARD, U_GUARD_FACTORIAL], "other",
      "Absence of panics is Kani's default postcondition (bounds, unwrap/expect, overflow, unreachable). Units: arity "
      "check before indexing, heap typed-pointer invariant (Verus).",
      ["pest parsing of arbitrary UTF-8 and pairs_to_expr unwraps", "ariadne rendering and span-inside-text",
@@ -610,14 +786,14 @@ prop("C11", [U_BINOP_SCALAR, U_BINOP_DISPATCH, U_BINOP_ROUTE, U_ORDERING, U_BCAS
       "string concatenation by + (format!/String)", "the value of ^ beyond 'a number' (f64::powf primitive)"],
      BINOP_STUBS)
 
-prop("C04", [U_ARITY, U_ARITY_LAMBDA, U_BIND], "other",
+prop("C04", [U_ARITY, U_ARITY_LAMBDA], "other",
      "Arity classes and positional binding: can_accept for all usize (complete); get_arity/check_arity and the binding "
      "loop + call-time scope chain of FunctionDef::call for parameter lists of <= 3 parameters (bounded, labelled). "
      "What is captured (free-variable analysis) and call-site independence are NOT decided.",
      ["collect_free_variables / capture at definition time", "call-site independence of whole programs"],
      CALL_STUBS)
 
-prop("C18", [U_DEPTH, U_BIND_SAFE], "other",
+prop("C18", [U_DEPTH], "other",
      "Contract on FunctionDef::call for the call-depth guard (all built-ins, all usize depths): depth > 1000 => error "
      "before the callee; else the callee gets depth + 1. Native stack sufficiency is NOT decided.",
      ["that 1001 nested calls fit the native stack of the release build; that a few hundred calls succeed",
@@ -642,13 +818,16 @@ prop("C06", [U_JSON_SCALAR], "other",
       "not guaranteed correctly rounded - observation by reading, outside this technique)"],
      FMT_BT)
 
-prop("C03", [U_ASSIGN, U_DOASSIGN, U_ENV, U_ENV_AUDIT, U_BIND], "other",
-     "Per-site contracts for every place a name gets bound: the top-level Assignment arm, do-block assignment, the "
-     "Environment scope chain, and call-time parameter scopes (U-BIND); plus a frame audit that there is no other "
-     "insert site. Bounded in the name pool / chain depth (labelled). Whole-session induction is a paper step.",
-     ["induction over statement sequences (each step is proved, the composition is not)", "REPL/CLI drivers",
-      "that not/do/return/output cannot be identifiers (grammar)"],
-     ASSIGN_STUBS)
+prop("C03", [U_ENV, U_ENV_AUDIT], "other",
+     "Only the frame part of C03 is decided: the Environment scope chain behaves as 'local overrides parent' and an insert "
+     "into a child scope never changes the parent's view (Kani, bounded name pool), and the only Environment::insert call "
+     "sites are the Assignment arm and the do-block assignment (audit). The contracts written for those two sites "
+     "(U-ASSIGN, U-DOASSIGN in kani/verif_expr_assign.rs: refusal of keywords / built-ins / inputs / constants / visible "
+     "names without evaluating the right-hand side, bind-after-success, no leak) did NOT discharge within 15 minutes per "
+     "4 names and are not registered.",
+     ["the Assignment arm and evaluate_do_block_expr themselves (contracts written, intractable: >15 min)",
+      "induction over statement sequences", "REPL/CLI drivers", "that not/do/return/output cannot be identifiers (grammar)"],
+     [VECMAP_ASSUMPTION])
 
 prop("C02", [U_HEAP, U_FRAME_AUDIT, U_RANDOM], "other",
      "Frame conditions only: the heap is append-only (Verus, all heaps), the only two mutation sites set a lambda's name "
